@@ -27,6 +27,27 @@ CHECKS = {
  'C19': dict(engine=E1, ref='DESIGN.md 3/C19', technique='exhaustive enumeration of signatures from the grammar with their decomposition; exhaustive enumeration of Python values to depth 2 filtered by a reference claim predicate',
    text='Every signature sequence up to the node bound is generated together with its decomposition and compared with genCompleteTypes and the argument counts of Method/Signal; every Python value of depth <= 2, width <= 2 over 30 atoms (plain values and wrapper classes at range boundaries) inside the claim must get a single complete type, wrappers exactly theirs, and survive a variant round trip that the reference decoder can also read.',
    note='ref_type() in mcx/checks/c19.py states which values are inside the claim (first-element rule). Depth 3 only over a small pool (thorough).'),
+ 'C04': dict(engine=E2, ref='DESIGN.md 3/C04', technique='stateless exploration: exhaustive enumeration of read segmentations (cut sets up to a deviation bound) of enumerated message streams, each executed on a fresh real protocol object',
+   text='Every stream of 1-2 (and a slice of 3) messages from a pool mixing both byte orders, all four types and CR/LF-laden content is delivered under no cut, every single cut, byte-at-a-time and every pair of cuts near boundaries (anywhere, plus triples, when thorough); the same messages joined to the last handshake bytes for the server and both client roles; 3000 (20000) coalesced messages. The callback sequence must equal the sent sequence.',
+   note='Bound: <= 2 cuts quick / 3 thorough; pool of 10 messages. Reads are non-empty chunks.'),
+ 'C06': dict(engine=E2, ref='DESIGN.md 3/C06', technique='explicit-state BFS to a fixpoint over authentication line sequences on the real server protocol, step-compared with a reference server state machine; enumerated real-mechanism conversations; differential cut enumeration',
+   text='For each effective mechanism script the full reachable state space of (protocol state, script position, rejection count) is explored over an alphabet of 14 lines + 4 malformed ones and every reply and the authenticated flag are compared with the specification state machine; the real EXTERNAL/COOKIE/ANONYMOUS mechanisms are driven by a conforming reference client with right, 7 wrong shapes of, and cancelled responses; first byte, 16 KiB limit, and every single cut of every 2-line (3 thorough) conversation must not change the transcript.',
+   note='Peer credentials come from a fake socket; user lookups use the real pwd database; keyring in a scratch directory.'),
+ 'C07': dict(engine=E2, ref='DESIGN.md 3/C07', technique='explicit-state BFS to a fixpoint over server line sequences on the real client protocol with constraint oracles S1-S5; exhaustive handshakes against a reference server under every single cut',
+   text='The complete reachable state space of the client authenticator under 14 server lines x {UNIX, non-UNIX} is explored and every step checked against: BEGIN/binary only after a valid OK and an answered descriptor negotiation, AUTH lines a prefix of the preference order, next mechanism or close after REJECTED/ERROR, close on lines outside the protocol, no stall. 84 reference-server configurations (mechanism subsets x negotiation answers x EXTERNAL variants x transports) must complete, also with each server line cut at every position.',
+   note='~/.dbus-keyrings is redirected to a scratch keyring by wrapping the os module seen by txdbus.authentication; os.urandom is fixed.'),
+ 'C08': dict(engine=E2, ref='DESIGN.md 3/C08', technique='explicit-state BFS with deduplication over interleavings of issue/reply/error/expiry/unsolicited/loss events on a real client connection with a virtual clock, against a reference call table',
+   text='For 8 (10 thorough) call configurations (deadline order, declared return signature, reply and error shapes, no-reply calls) every interleaving of the events of 2-3 (4 thorough) concurrent calls is explored; after every event each Deferred must have fired exactly as the reference table says, the armed timers must equal the outstanding deadlines, and running the clock out plus late replies must change nothing.',
+   note='Calls are issued in index order. Replies are real bytes through dataReceived.'),
+ 'C09': dict(engine=E2, ref='DESIGN.md 3/C09', technique='crash-point enumeration of connect() on a memory reactor; explicit-state BFS over calls/callbacks/proxies with connection loss injected in every reachable state',
+   text='Every address list up to 3 entries x every reachability vector x the transport closing after each server step of three conversation variants: attempt order and exactly-once firing of the connect Deferred. For an established connection, all orders (to depth 4 for the full alphabet; to the fixpoint for the proxy and the call/callback sub-alphabets) of calls with/without deadlines, callback registration/cancellation, explicit/known-name/introspected proxies (two for one object, dropped ones) followed by the loss in every state.',
+   note='Loss arrives as connectionLost(ConnectionDone); a dropped proxy is not live.'),
+ 'C13': dict(engine=E2, ref='DESIGN.md 3/C13', technique='explicit-state BFS to a fixpoint on a real Bus with scripted raw clients, step-compared with a reference name table, table read back through the bus after every step',
+   text='All histories of RequestName (8 flag values), ReleaseName and disconnect by 3 clients on 1 name are explored to the fixpoint (and 2 clients x 2 names to depth 4; 4 clients / 3 clients x 2 names when thorough); after every step the reply code, the NameAcquired recipients and GetNameOwner / ListQueuedOwners for every name are compared with the reference table.',
+   note='Where a replaced owner goes is left open (adopted from the bus); NameLost / NameOwnerChanged not compared.'),
+ 'C20': dict(engine=E2, ref='DESIGN.md 3/C20', technique='stateless exploration: exhaustive enumeration of interleavings of descriptor arrivals and reads (under cut sets) on the real receiver; exhaustive call sequences on the real sender',
+   text='Every sequence of up to 3 calls over 9 bodies is sent through callRemote and the transport log compared (descriptors in argument order ahead of the bytes, declared count, indexes). The same sequences, reference-encoded in both byte orders, are delivered under no cut / every single cut (pairs when thorough) in every order of descriptor arrivals and reads a stream socket allows; a trailing probe message shows exactly the declared count was consumed.',
+   note='Descriptors are plain integers on a fake transport; arrival model is the statement\'s.'),
 }
 
 REASON_TODO = 'check not built yet in this snapshot (planned in DESIGN.md section 3); nothing is claimed for it'
